@@ -18,8 +18,9 @@ Proved here, for the model of the *repaired* manager:
 Partial, because “the process keeps running” is finally a statement about CPython: the model lists the raising
 primitives (see `Model/Manager.lean`) and an exception from a primitive that is not listed is outside the theorem.  That
 part is decided on the implementation on every run: any exception escaping `MessageManager.run()` on any generated history
-is the observation `CRASH` (Spec clause C03), and DEBUG-level log forwarding (not in the model) is exercised through the
-history-based Spec only (that stream found C03-F13).
+is the observation `CRASH` (Spec clause C03).  DEBUG-level log forwarding is inside the model (every `logger.debug` call
+of the `run()` path; before it was, the DEBUG stream was judged by the history-based Spec only — that stream found
+C03-F13), so `model_never_crashes` covers a manager started with `log_level=DEBUG` too.
 -/
 namespace Pyrtma.C03
 open Pyrtma.Mgr
